@@ -37,7 +37,8 @@ pub enum Node {
     Sub(Tid, Tid),
     Mul(Tid, Tid),
     Neg(Tid),
-    /// 64-bit limb `idx` (little-endian position) of a 256-bit blob variable: (V div 2^(64 idx)) mod 2^64
+    /// 64-bit window of a 256-bit blob variable starting at BYTE offset `off` (little-endian, 0..=24):
+    /// (V div 2^(8 off)) mod 2^64.  Offsets 0/8/16/24 are the four aligned limbs.
     Limb(u32, u8),
 }
 
@@ -200,6 +201,8 @@ pub struct Arena {
     pub draws: Vec<u32>,
     pub max_decisions: usize,
     pub misaligned_pairs: usize,
+    /// 64-bit words handed to `Scalar::from_raw` that contain pieces of blob tokens but are not an 8-byte window of one blob
+    pub unmodelled_words: usize,
     pub seed: u64,
     /// when set, every decision takes this outcome (still recorded, marked forced)
     pub force: Option<bool>,
@@ -229,6 +232,7 @@ impl Arena {
             draws: vec![],
             max_decisions: 20000,
             misaligned_pairs: 0,
+            unmodelled_words: 0,
             seed: 0,
             force: None,
             force_queue: Default::default(),
@@ -272,7 +276,7 @@ impl Arena {
         let sh = match &n {
             Node::Const(c) => *c,
             Node::Var(v) => fq::reduce(&self.vars[*v as usize].shadow),
-            Node::Limb(v, i) => [self.vars[*v as usize].shadow[*i as usize], 0, 0, 0],
+            Node::Limb(v, off) => [window64(&self.vars[*v as usize].shadow, *off), 0, 0, 0],
             Node::Add(a, b) => fq::add(&self.shadow[*a as usize], &self.shadow[*b as usize]),
             Node::Sub(a, b) => fq::sub(&self.shadow[*a as usize], &self.shadow[*b as usize]),
             Node::Mul(a, b) => fq::mul(&self.shadow[*a as usize], &self.shadow[*b as usize]),
@@ -578,6 +582,57 @@ pub fn parse_limb(b: &[u8]) -> Option<(u32, u8)> {
     }
     None
 }
+/// 64 bits of a 256-bit value starting at byte offset `off` (0..=24)
+pub fn window64(v: &U256, off: u8) -> u64 {
+    let b = fq::to_le_bytes(v);
+    let o = off as usize;
+    let mut w = [0u8; 8];
+    w.copy_from_slice(&b[o..o + 8]);
+    u64::from_le_bytes(w)
+}
+/// An 8-byte word read out of a blob image at ANY byte offset: Some((var, byte offset)).  Aligned words are the limb
+/// tokens themselves; a misaligned word straddles two neighbouring limb tokens of one variable (e.g. bytes 23..31 of a
+/// channel id read as "the fourth limb"): it is recognised by reconstructing the two tokens and comparing all 8 bytes.
+pub fn parse_window(w: &[u8]) -> Option<(u32, u8)> {
+    if w.len() < 8 {
+        return None;
+    }
+    if let Some((v, i)) = parse_limb(w) {
+        return Some((v, 8 * i));
+    }
+    for r in 1..8usize {
+        // w = T_k[r..8] ++ T_{k+1}[0..r]
+        let at = |j: usize| -> u8 {
+            // byte j (0..8) of the token layout, taken from whichever piece holds it; var bytes are shared by both tokens
+            if j >= r {
+                w[j - r]
+            } else {
+                w[8 - r + j]
+            }
+        };
+        let var = u32::from_le_bytes([at(3), at(4), at(5), at(6)]);
+        let k: i32 = if r <= 2 { (w[2 - r] & 0x0F) as i32 } else { (w[8 - r + 2] & 0x0F) as i32 - 1 };
+        if !(0..=2).contains(&k) {
+            continue;
+        }
+        let ok = with(|a| (var as usize) < a.vars.len() && a.vars[var as usize].kind == VarKind::Blob);
+        if !ok {
+            continue;
+        }
+        let (t0, t1) = (limb_token(var, k as u8), limb_token(var, k as u8 + 1));
+        let mut exp = [0u8; 8];
+        exp[..8 - r].copy_from_slice(&t0[r..]);
+        exp[8 - r..].copy_from_slice(&t1[..r]);
+        if exp[..] == w[..8] {
+            return Some((var, (8 * k as usize + r) as u8));
+        }
+    }
+    None
+}
+/// true if the 8 bytes contain the limb-token magic somewhere but are not a recognisable window of a blob
+pub fn suspicious_word(w: &[u8]) -> bool {
+    parse_window(w).is_none() && w.windows(2).any(|p| p == LIMB_MAGIC) && w.iter().any(|b| (b & 0xF0) == 0xB0)
+}
 /// Some(var) if the 32 bytes are the four limbs 0..3 of one blob variable, in order
 pub fn parse_blob(b: &[u8]) -> Option<u32> {
     if b.len() < 32 {
@@ -741,8 +796,8 @@ fn transcript_eq(a: &mut Arena, x: &[Item], y: &[Item]) -> Option<F> {
                         if i1 == i2 {
                             F::True
                         } else {
-                            let la = a.mk(Node::Limb(*i1 / 4, (*i1 % 4) as u8));
-                            let lb = a.mk(Node::Limb(*i2 / 4, (*i2 % 4) as u8));
+                            let la = a.mk(Node::Limb(*i1 / 4, 8 * (*i1 % 4) as u8));
+                            let lb = a.mk(Node::Limb(*i2 / 4, 8 * (*i2 % 4) as u8));
                             let d = a.mk(Node::Sub(la, lb));
                             F::EqZ(d)
                         }
@@ -789,7 +844,7 @@ fn transcript_eq(a: &mut Arena, x: &[Item], y: &[Item]) -> Option<F> {
                 let c = if *width == 8 && *kind == K_LIMB {
                     let mut w8 = [0u8; 8];
                     w8.copy_from_slice(bytes);
-                    let l = a.mk(Node::Limb(*id / 4, (*id % 4) as u8));
+                    let l = a.mk(Node::Limb(*id / 4, 8 * (*id % 4) as u8));
                     let k = a.mk(Node::Const([u64::from_le_bytes(w8), 0, 0, 0]));
                     let d = a.mk(Node::Sub(l, k));
                     F::EqZ(d)
@@ -911,7 +966,7 @@ pub fn eval_with(model: &HashMap<u32, U256>, fs: &[F]) -> Vec<bool> {
             let sh = match &a.nodes[t] {
                 Node::Const(c) => *c,
                 Node::Var(v) => fq::reduce(&a.vars[*v as usize].shadow),
-                Node::Limb(v, i) => [a.vars[*v as usize].shadow[*i as usize], 0, 0, 0],
+                Node::Limb(v, off) => [window64(&a.vars[*v as usize].shadow, *off), 0, 0, 0],
                 Node::Add(x, y) => fq::add(&a.shadow[*x as usize], &a.shadow[*y as usize]),
                 Node::Sub(x, y) => fq::sub(&a.shadow[*x as usize], &a.shadow[*y as usize]),
                 Node::Mul(x, y) => fq::mul(&a.shadow[*x as usize], &a.shadow[*y as usize]),
